@@ -425,34 +425,72 @@ example : exportedLookup ["copy_refs", "assign_params", "copy_params", "roots_ex
 
 `Generated.exportCacheNoParam` / `Generated.exportCacheParam` are the templates `SpaceTranslator.cache_method_noparam`
 / `cache_method` of exporter.py read as programs (tables.cache_method_tokens); the check also reads every cache
-method of the generated classes of the failure family back into the same form (`cm`) and compares. -/
+method of the generated classes back into the same form (`cm`) and compares.  The theorems are about the programs
+as extracted; they depend on how the templates are written only through the decidable checker `cacheWF`
+(`generated_cache_methods_wf`), which accepts every arrangement of the statements that behaves as the protocol
+demands, so a rearrangement of the templates that keeps the behaviour keeps the proofs. -/
 
-/-- what the templates say today -/
-theorem cache_templates_parse :
-    CProg.ofTokens Generated.exportCacheNoParam
-        = some { neg := false, thn := [.retSlot], els := [.evalBoth, .setHas, .retTmp], aft := [] } ∧
-    CProg.ofTokens Generated.exportCacheParam
-        = some { neg := false, thn := [.retItem], els := [.evalTmp, .putTmp, .retTmp], aft := [] } := by
+/-- **Every program the checker accepts follows the protocol** - in whatever arrangement its statements are
+written (an `else` branch or the statements after a returning `if`, the test negated, the value stored through a
+local or directly): for every type of values, every sequence of reads of one element and whatever the formula does
+at each of them, the reads show what modelx shows (`specReads`) and the formula is evaluated as often as modelx
+evaluates it.  (`Export.cacheOK_of_cacheWF`: the statements never inspect a value or the counter, so four test
+reads over `Bool` decide; `Export.reads_eq_spec_of_ok`.) -/
+theorem checked_cache_reads_eq_spec (V : Type) (p : CProg) (h : cacheWF p = true) (fs : List (Option V)) :
+    CacheOK V p ∧ reads p fs {} = specReads fs none ∧ callsAfter p fs {} = specCalls fs none := by
+  have ok := cacheOK_of_cacheWF V p h
+  have := reads_eq_spec_of_ok ok fs {} none rfl
+  exact ⟨ok, this.1, by rw [this.2]; simp⟩
+
+/-- **The checker is exact**: it accepts a program iff the program follows the protocol for every type of values
+(so a rearrangement of a template is accepted exactly when it keeps the behaviour). -/
+theorem cache_checker_exact (p : CProg) : cacheWF p = true ↔ ∀ V : Type, CacheOK V p :=
+  ⟨fun h V => cacheOK_of_cacheWF V p h, fun h => cacheWF_of_cacheOK p (h Bool)⟩
+
+/-- **The per-run obligation**: the programs extracted from the templates of exporter.py as they are NOW parse and
+pass the checker.  (Nothing else in this section depends on how the templates are written.) -/
+theorem generated_cache_methods_wf :
+    cacheTokensWF Generated.exportCacheNoParam = true ∧ cacheTokensWF Generated.exportCacheParam = true := by
   decide
 
 /-- Both generated cache methods follow the protocol (`CacheOK`): read by read, from every state of the cache. -/
 theorem generated_cache_methods_ok (V : Type) (toks : List String) (p : CProg)
     (hm : toks = Generated.exportCacheNoParam ∨ toks = Generated.exportCacheParam)
     (hp : CProg.ofTokens toks = some p) : CacheOK V p := by
-  have hpp := cache_templates_parse
+  have hw := generated_cache_methods_wf
+  apply cacheOK_of_cacheWF
   rcases hm with rfl | rfl
-  · rw [hpp.1] at hp
-    cases hp
-    refine ⟨?_, ?_, ?_⟩
-    · intro s h; simp [runCache, execOps, h]
-    · intro s v h; simp [runCache, execOps, h]
-    · intro s f h; simp [runCache, execOps, h]
-  · rw [hpp.2] at hp
-    cases hp
-    refine ⟨?_, ?_, ?_⟩
-    · intro s h; simp [runCache, execOps, h]
-    · intro s v h; simp [runCache, execOps, h]
-    · intro s f h; simp [runCache, execOps, h]
+  · have := hw.1
+    simp only [cacheTokensWF, hp] at this
+    exact this
+  · have := hw.2
+    simp only [cacheTokensWF, hp] at this
+    exact this
+
+/-- not vacuous: the extracted programs parse -/
+example : (CProg.ofTokens Generated.exportCacheNoParam).isSome ∧ (CProg.ofTokens Generated.exportCacheParam).isSome := by
+  decide
+
+/-- the same protocol written in other ways is accepted as well: the statements after a returning `if` instead of
+an `else` branch (both templates), the test negated with the branches swapped, the value stored from the local
+after the call -/
+example : [["ifhas", "retSlot", "else", "end", "evalBoth", "setHas", "retTmp"],
+           ["ifhas", "retItem", "else", "end", "evalTmp", "putTmp", "retTmp"],
+           ["ifnothas", "evalTmp", "storeTmp", "setHas", "else", "end", "retSlot"],
+           ["ifnothas", "evalItem", "else", "end", "retItem"],
+           ["ifhas", "retSlot", "else", "evalBoth", "setHas", "retTmp", "end"]].map cacheTokensWF
+    = [true, true, true, true, true] := by decide
+
+/-- ... and what is not the protocol is rejected: the flag raised before the call (C15-mutG), a placeholder stored
+before the call, the value never stored, the flag never raised, a stored value recomputed, no return -/
+example : [["ifnothas", "setHas", "evalSlot", "else", "end", "retSlot"],
+           ["ifhas", "retItem", "else", "putTmp", "evalTmp", "putTmp", "retTmp", "end"],
+           ["ifhas", "retSlot", "else", "evalTmp", "setHas", "retTmp", "end"],
+           ["ifhas", "retSlot", "else", "evalBoth", "retTmp", "end"],
+           ["ifhas", "evalBoth", "retTmp", "else", "evalBoth", "setHas", "retTmp", "end"],
+           ["ifhas", "retSlot", "else", "evalBoth", "setHas", "end"],
+           ["ifhas", "retSlot", "evalBoth"]].map cacheTokensWF
+    = [false, false, false, false, false, false, false] := by decide
 
 /-- **A failed evaluation stores nothing: the next read evaluates again.**  For both generated cache methods, from
 a cache without a value: a read at which the formula raises ends with that exception, leaves the cache without a
@@ -513,8 +551,9 @@ returns `None` without evaluating. -/
 theorem flag_before_evaluation_fails :
     ∃ p, CProg.ofTokens ["ifnothas", "setHas", "evalSlot", "else", "end", "retSlot"] = some p ∧
       reads p [none, none, some 7] ({} : CSt Nat) = [.error, .value none, .value none] ∧
-      ¬ CacheOK Nat p := by
-  refine ⟨{ neg := true, thn := [.setHas, .evalSlot], els := [], aft := [.retSlot] }, by decide, by decide, ?_⟩
+      cacheWF p = false ∧ ¬ CacheOK Nat p := by
+  refine ⟨{ neg := true, thn := [.setHas, .evalSlot], els := [], aft := [.retSlot] }, by decide, by decide,
+    by decide, ?_⟩
   intro ok
   have := (ok.fail {} rfl).2.1
   revert this
